@@ -37,7 +37,9 @@ MANIFEST_ENTRY = {
             "queue followed by a prefix of the unsynced operations in order, a synced queue is recovered exactly, the log's "
             "directory entry is durable from the first writer on (C02_crash_queue_bounds, C02_synced_never_lost, "
             "C02_log_entry_durable); contents level - re-applying an already committed batch in front of new operations "
-            "changes nothing (C02_reapply_harmless). The statement over whole histories with up to three crashes is decided "
+            "changes nothing (C02_reapply_harmless); protocol level - at every operation boundary of a commit every combination "
+            "of recoverable contents and recoverable queue is 'old contents + queue between synced and whole batch' or 'new "
+            "contents + empty queue or the whole batch' (C02_commit_windows, over C01's crash-aware disk and the log jointly). The statement over whole histories with up to three crashes is decided "
             "on the real implementation by the executable specification C02.Model.spec evaluated in Coq on crash histories "
             "(a test of the implementation against a formal spec, not a theorem about a whole-history model). Three genuine "
             "defects were found and repaired (unsynced log directory entry, torn tail followed by appends, and C01's rename).",
